@@ -190,6 +190,7 @@ def shards(tier, seed):
     out += [{"mode": "typed", "index": i, "examples": 60 if tier == "quick" else 3000} for i in range(1)]
     out += [{"mode": "values", "index": i, "examples": 2500 if tier == "quick" else 150000} for i in range(2)]
     out.append({"mode": "baseline"})
+    out.append({"mode": "cli", "examples": 10 if tier == "quick" else 300})
     if tier == "thorough":
         out += [{"mode": "atheris", "index": i, "seconds": 480} for i in range(4)]
     return out
@@ -211,6 +212,40 @@ def run_shard(spec):
                 col.fail(key, f"{origin}: {what}", {"src": src, "cfg": "all"})
             if col.out_of_time():
                 break
+        return col.result()
+
+    if mode == "cli":
+        import os as _os
+        import shutil as _sh
+        import tempfile as _tf
+
+        d = _tf.mkdtemp(prefix="pv_c12_cli_")
+        try:
+            def make_c():
+                @given(corpus.program_strategy(2))
+                def t(prog):
+                    origin, src, muts = prog
+                    r = judge_program(src, None)
+                    if r[0] == "discard":
+                        col.discarded += 1
+                        return
+                    path = _os.path.join(d, "pv_cli_case.py")
+                    open(path, "w").write(src)
+                    code, out, err = sut.run_cli([path], cwd=d)
+                    col.case(nontrivial_id=("cli", src) if muts else None, label="route:cli")
+                    key = None
+                    if code not in (0, 1):
+                        key = f"cli|exit-status|{code}"
+                    elif "Traceback (most recent call last)" in err and "Internal error" not in out + err and "Failed to import" not in out + err:
+                        name, where = frame_of(err)
+                        key = f"cli|traceback|{name}|{where}"
+                    if key:
+                        col.fail(key, f"{origin} mutated by {muts}: python -m pyanalyze exits {code}; stderr tail: {err[-300:]}",
+                                 {"src": src, "cli": True}, raise_new=True)
+                return t
+            runner.drive(col, make_c, seed, spec["examples"], shrink=False)
+        finally:
+            _sh.rmtree(d, ignore_errors=True)
         return col.result()
 
     if mode == "atheris":
@@ -300,6 +335,24 @@ def run_shard(spec):
 
 
 def replay_all(case):
+    if case.get("cli"):
+        import os as _os
+        import shutil as _sh
+        import tempfile as _tf
+
+        d = _tf.mkdtemp(prefix="pv_c12_cli_")
+        try:
+            path = _os.path.join(d, "pv_cli_case.py")
+            open(path, "w").write(case["src"])
+            code, out, err = sut.run_cli([path], cwd=d)
+            if code not in (0, 1):
+                return [{"key": f"cli|exit-status|{code}", "what": err[-300:], "case": case}]
+            if "Traceback (most recent call last)" in err and "Internal error" not in out + err and "Failed to import" not in out + err:
+                name, where = frame_of(err)
+                return [{"key": f"cli|traceback|{name}|{where}", "what": err[-300:], "case": case}]
+            return []
+        finally:
+            _sh.rmtree(d, ignore_errors=True)
     if "src" in case:
         cfg = case.get("cfg")
         if isinstance(cfg, list):
